@@ -462,6 +462,11 @@ class C18(Prop):
                 if rng.random() < 0.3:
                     m['reaps_children'] = False
         cfg['foreign'] = [1, 77, 4242, 4999]
+        if rng.random() < 0.08:
+            # two watchers whose names differ only by a letter that other
+            # case mappings than lower() fold together (sharp s)
+            cfg['watchers'][0]['name'] = 'maß'
+            cfg['watchers'][1]['name'] = 'mass'
         nw = len(cfg['watchers'])
         ops = []
         n = rng.choice([2, 4, 6, 8]) if tier == 'quick' else \
